@@ -496,17 +496,22 @@ func ExpectedUpdate(pre, mid, post *State, dels, adds []H) expUpdate {
 	}
 	// additions: every added leaf, and every node that became a child of a
 	// parent created by the additions, at final positions.
-	midHashes := map[H]bool{}
-	for _, h := range midL.Nodes {
-		midHashes[h] = true
-	}
+	// (a parent is "created by the additions" iff its logical subtree contains
+	// a newly added slot; decided by slots, not by hash, because a leaf may
+	// legally carry the same 32 bytes as some internal node)
+	_ = midL
 	expA := map[uint64]H{}
-	for _, a := range adds {
+	for i := mid.N; i < post.N; i++ {
+		a := post.Leaves[i]
 		expA[postL.LeafAt[a].Pos(postL.R)] = a
 	}
-	for ro, h := range postL.Nodes {
-		if postL.IsLeaf[ro] || midHashes[h] {
+	for ro := range postL.Nodes {
+		if postL.IsLeaf[ro] {
 			continue
+		}
+		lg := postL.Log[ro]
+		if lg.lo+(uint64(1)<<lg.h) <= mid.N {
+			continue // entirely made of old slots: not touched by the additions
 		}
 		for _, c := range []RO{ro.Left(), ro.Right()} {
 			if ch, ok := postL.Nodes[c]; ok {
